@@ -468,6 +468,10 @@ class ArrayTr:
             t, ty = self.ex(node.args[0])
             if ty == "VF":
                 return f"(argmin Op {t})", "SN"                                  # first index of the minimum (np.argmin)
+        if _is_call(node, "soft_thresholding") and not node.keywords and len(node.args) == 2:
+            (a, ta), (b, tb) = self.ex(node.args[0]), self.ex(node.args[1])
+            if (ta, tb) == ("VF", "SF"):
+                return f"(soft_thresholding Op {b} {a})", "VF"
         if self.tl(node, "abs", 1) and not node.keywords:
             t, ty = self.ex(node.args[0])
             if ty == "VF":
@@ -529,10 +533,19 @@ class ArrayTr:
                 return a, "VB"                                                   # indicator == 1
         if isinstance(node, ast.Compare) and len(node.ops) == 1:
             (a, ta), (b, tb) = self.ex(node.left), self.ex(node.comparators[0])
-            if isinstance(node.ops[0], ast.Gt) and (ta, tb) == ("VF", "VF"):
-                return f"(p_gt Op {a} {b})", "VB"
+            if (ta, tb) == ("VF", "VF") and type(node.ops[0]) in (ast.Gt, ast.GtE, ast.Lt, ast.LtE):
+                if isinstance(node.ops[0], ast.Gt):
+                    return f"(p_gt Op {a} {b})", "VB"
+                if isinstance(node.ops[0], ast.Lt):
+                    return f"(p_gt Op {b} {a})", "VB"
+                x, y = (a, b) if isinstance(node.ops[0], ast.LtE) else (b, a)      # x <= y
+                return f"(map (fun xy : F * F => fleb Op (fst xy) (snd xy)) (combine {x} {y}))", "VB"
             if isinstance(node.ops[0], ast.Lt) and (ta, tb) == ("VN", "SN"):
                 return f"(map (fun r => Nat.ltb r {b}) {a})", "VB"
+            if isinstance(node.ops[0], ast.LtE) and (ta, tb) == ("VN", "SN"):
+                return f"(map (fun r => Nat.leb r {b}) {a})", "VB"
+            if isinstance(node.ops[0], ast.Gt) and (ta, tb) == ("SN", "VN"):
+                return f"(map (fun r => Nat.ltb r {a}) {b})", "VB"
             if isinstance(node.ops[0], ast.GtE) and (ta, tb) == ("VF", "SF") and b == "(f0 Op)":
                 return f"(map (fun x => fleb Op (f0 Op) x) {a})", "VB"
         # tl.where(mask, x, c): c = 0, or the maximum over the WHOLE matrix of the very expression x (gmax: couples the columns)
@@ -583,11 +596,11 @@ def _mat(node):
 
 
 def _vec(node):
-    if isinstance(node, ast.Name) and node.id == "s":
-        return "s"
-    if _is_call(node, "soft_thresholding") and not node.keywords and len(node.args) == 2 and _name(node.args[1]) == "threshold":
-        return f"(soft_thresholding Op t {_vec(node.args[0])})"
-    raise Untranslatable(ast.unparse(node)[:200])
+    """the vector of (thresholded) singular values: any expression of the array language over s and threshold"""
+    t, ty = ArrayTr({"s": ("s", "VF"), "threshold": ("t", "SF")}).ex(node)
+    if ty != "VF":
+        raise Untranslatable(ast.unparse(node)[:200])
+    return t
 
 
 def _ret(st):
@@ -789,10 +802,21 @@ def coq_array_programs(ap):
     return HEAD.replace("From Coq Require Import List Reals QArith Qreals Bool.", "From Coq Require Import List Reals ZArith QArith Qreals Bool.") + PRIMS + f"""
 Definition svt_src {{F : Type}} (Op : fops F) (U : list (list F)) (s : list F) (V : list (list F)) (t : F) : list (list F) := {ap['svt']}.
 Definition procrustes_src {{F : Type}} (Op : fops F) (U V : list (list F)) : list (list F) := {ap['procrustes']}.
-Lemma svt_src_ok : forall F (Op : fops F) U s V t, svd_thresholding_with Op U s V t = svt_src Op U s V t.
-Proof. reflexivity. Qed.
-Lemma procrustes_src_ok : forall F (Op : fops F) U V, procrustes_with Op U V = procrustes_src Op U V.
-Proof. reflexivity. Qed.
+(* identical to the model's definitions (reflexivity), or - after a refactoring - equal as functions on a grid (singular values >= 0) *)
+Goal forall F (Op : fops F) U s V t, svd_thresholding_with Op U s V t = svt_src Op U s V t.
+Proof. first [reflexivity | idtac "@@C12-SVT-NOT-SYNTACTIC"]. Abort.
+Goal forall F (Op : fops F) U V, procrustes_with Op U V = procrustes_src Op U V.
+Proof. first [reflexivity | idtac "@@C12-PROCRUSTES-NOT-SYNTACTIC"]. Abort.
+Definition U0 : list (list Q) := [[1; 2]; [3; 4]; [0; 1]]%Q.
+Definition V0 : list (list Q) := [[1; -1; 2]; [0; 1; 1]]%Q.
+Definition same_rows (A B : list (list Q)) : bool :=
+  Nat.eqb (length A) (length B) && forallb (fun p : list Q * list Q => Nat.eqb (length (fst p)) (length (snd p)) &&
+    forallb (fun q : Q * Q => Qeq_bool (fst q) (snd q)) (combine (fst p) (snd p))) (combine A B).
+Definition svd_grid_ok : bool :=
+  forallb (fun s1 => forallb (fun s2 => forallb (fun t =>
+     same_rows (svt_src Qops U0 [s1; s2] V0 t) (svd_thresholding_with Qops U0 [s1; s2] V0 t)) [0; (1#2); 1; 3]%Q) [0; 1; 2; 3]%Q) [0; 1; 2; 3]%Q
+  && same_rows (procrustes_src Qops U0 V0) (procrustes_with Qops U0 V0).
+Goal svd_grid_ok = true. Proof. vm_compute. reflexivity. Qed.
 Definition hard_src {{F : Type}} (Op : fops F) (k : nat) (v : list F) : list F := {ap['hard']}.
 Definition simplex_src {{F : Type}} (Op : fops F) (p : F) (v : list F) : list F := {ap['simplex']}.
 Definition monotone_src {{F : Type}} (Op : fops F) (v : list F) : list F :=
@@ -804,7 +828,7 @@ Definition grid : list (list Q) := vectors 0 ++ vectors 1 ++ vectors 2 ++ vector
 Definition same (a b : list Q) : bool := Nat.eqb (length a) (length b) && forallb (fun p : Q * Q => Qeq_bool (fst p) (snd p)) (combine a b).
 Definition hard_grid_ok : bool := forallb (fun v => forallb (fun k => same (hard_src Qops k v) (hard_thresholding Qops k v)) (seq 0 6)) grid.
 Definition simplex_grid_ok : bool :=
-  forallb (fun v => match v with [] => true | _ => forallb (fun p => same (simplex_src Qops p v) (simplex_prox Qops p v)) [0; (1#2); 1; 3; 7]%Q end) grid.
+  forallb (fun v => match v with [] => true | _ => forallb (fun p => same (simplex_src Qops p v) (simplex_prox Qops p v)) [(1#4); (1#2); 1; 3; 7]%Q end) grid.   (* budgets p > 0: the operator's domain *)
 Definition monotone_grid_ok : bool :=
   forallb (fun v => same (monotone_src Qops v) (monotonicity_prox Qops false v)
                     && same (rev (monotone_src Qops (rev v))) (monotonicity_prox Qops true v)) grid.
@@ -840,7 +864,8 @@ def run_array_programs(chk, d):
     chk.checker_cmds.append("coqc on the array programs regenerated from the source (corr:C12-static): svt / procrustes identical, hard / simplex / monotone on an exhaustive grid")
     if p.returncode == 0 and "@@C12-ARRAY-OK" in p.stdout:
         shutil.rmtree(d, ignore_errors=True)
-        return {"status": "svd_thresholding, procrustes identical to the model; hard_thresholding, simplex_prox, monotonicity_prox (both directions), unimodality_prox (flags, scores, assembled column) equal on the grid", "programs": sorted(ap)}
+        syn = "identical to the model" if "NOT-SYNTACTIC" not in p.stdout else "equal to the model on the grid (syntactically different)"
+        return {"status": f"svd_thresholding, procrustes {syn}; hard_thresholding, simplex_prox, monotonicity_prox (both directions), unimodality_prox (flags, scores, assembled column) equal on the grid", "programs": sorted(ap)}
     chk.broken.append({"what": "corr:C12-static: an array program regenerated from the source differs from Model/Prox.v",
                        "detail": {"programs": ap, "stderr": p.stderr[-1500:]}})
     return {"status": "mismatch"}
